@@ -636,6 +636,19 @@ theorem datetime_diff_vs_line (a b : NaiveDT) (ha : NDTInv a) (hb : NDTInv b) :
   refine ⟨?_, Proofs.TimeGaps.crossErr_cases a b ha.2 hb.2⟩
   rw [(Proofs.TimeCarry.diff_full a b ha hb).1, Proofs.TimeGaps.dt_diff_vs_line a b]
 
+/-- (audit G1) the derived ORDER of date-times is the order on that extended line for every pair of
+valid date-times, leap-second operands included — so on the inputs of
+`datetime_diff_not_line_distance` it is the difference, not the order, that departs from the line
+(`order_is_line_order` lifted to date-times; C03's `order_follows_diff` covers non-leap operands) -/
+theorem datetime_order_is_line_order (a b : NaiveDT) (ha : NDTInv a) (hb : NDTInv b) :
+    NaiveDT.cmp a b = sgn (dtDiffLine a b) :=
+  Proofs.TimeGaps.dt_cmp_line a b ha hb
+
+example : NaiveDT.cmp ⟨dateOfYo 2017 1, ⟨0, 0⟩⟩ ⟨dateOfYo 2016 366, ⟨86399, 1500000000⟩⟩ = 1 ∧
+    sgn (dtDiffLine ⟨dateOfYo 2017 1, ⟨0, 0⟩⟩ ⟨dateOfYo 2016 366, ⟨86399, 1500000000⟩⟩) = 1 ∧
+    NaiveDT.cmp ⟨dateOfYo 2016 366, ⟨86399, 1500000000⟩⟩ ⟨dateOfYo 2016 366, ⟨86399, 999999999⟩⟩ = 1 := by
+  decide +kernel
+
 /-- (audit G1) the date-time difference IS the extended-line distance `dtDiffLine` when the two
 operands lie on one date or neither is a leap second.  `_partial`: for a leap-second operand on
 another date the full statement is false (`datetime_diff_not_line_distance`); what holds there is
